@@ -23,7 +23,7 @@ from __future__ import annotations
 import ast
 
 from .. import sym
-from ..model import AnalysisError, Program, attr_chain, bind_args, norm_stmt, walk_no_nested
+from ..model import AnalysisError, Program, attr_chain, bind_args, inline_single_defs, norm_stmt, walk_no_nested
 from ..paths import Engine, Hooks, Opaque, Seq, State, Const, describe_trail
 from ..report import Result
 from ..selftest import Variant
@@ -373,6 +373,8 @@ def _check_counts(prog: Program, res: Result):
                 if not (isinstance(s, ast.Assign) and isinstance(s.value, ast.BinOp) and isinstance(s.value.op, ast.Div)):
                     continue
                 r = s.value.right
+                if isinstance(r, ast.Name):  # the denominator through a temporary
+                    r = inline_single_defs(fi.node, r, depth=1)
                 if not (isinstance(r, ast.BinOp) and isinstance(r.op, ast.Sub) and isinstance(r.left, ast.Name) and isinstance(r.right, ast.Constant) and r.right.value == 1):
                     continue
                 nvar = r.left.id
@@ -407,7 +409,7 @@ def _check_counts(prog: Program, res: Result):
             st2 = st.fork()
             for b_ in spacing:
                 st2.env[b_] = Rat.atom("b")
-            v = eng.eval(s.value, st2)
+            v = eng.eval(inline_single_defs(fi.node, s.value, keep=spacing), st2)
             if isinstance(v, Rat):
                 a = sym_single_call(v, "floor")
                 found = True
@@ -464,7 +466,7 @@ def _check_counts(prog: Program, res: Result):
         s2.env[p] = Rat.atom(p)
     for v in loops:
         s2.env[v] = Rat.atom(v)
-    a = [e2.eval(x, s2) for x in rc[0].args]
+    a = [e2.eval(inline_single_defs(sq.node, x), s2) for x in rc[0].args]
     ivar = next((v for v, r in loops.items() if r == ["lower", "upper + 1"]), None)
     jvar = next((v for v, r in loops.items() if r == ["2"]), None)
     ok = (ivar is not None and jvar is not None and len(a) >= 4 and all(isinstance(x, Rat) for x in a[:4])
@@ -495,7 +497,7 @@ def _count_side(fn: ast.FunctionDef, nvar: str, use: ast.stmt, eng, st):
             cands.append(n.value)
     for c in cands:
         try:
-            v = eng.eval(c, st)
+            v = eng.eval(inline_single_defs(fn, c), st)
         except Exception:  # noqa: BLE001
             continue
         if not isinstance(v, Rat):
